@@ -1218,7 +1218,9 @@ pub fn c02(ctx: &mut Ctx) {
         crate::eng_las::run(ctx, 0, 0, 0);
         return;
     }
-    run_ring_prop(ctx, "C02", 4000, 400_000, 2);
+    if ctx.tier != Tier::Miri {
+        run_ring_prop(ctx, "C02", 4000, 400_000, 2);
+    }
     if ctx.only.is_none() {
         crate::eng_las::run(ctx, 400_000, 40_000_000, 60);
     }
